@@ -256,3 +256,8 @@ N.append({'id': 'py-rename-all-locals', 'generator': 'rename-python-locals', 'fi
 # tests/test_treespec.py, test_registry.py, test_prefix_errors.py, test_accessor.py, test_typing.py
 # (31829 passed)
 N.append({'id': 'cxx-rename-all-locals', 'generator': 'rename-cxx-locals', 'file': None, 'edits': []})
+
+# generated: as above plus every parameter of every function definition (declarations keep their
+# spelling; constructors skipped): 3586 occurrences, built and tested the same way (31829 passed)
+N.append({'id': 'cxx-rename-all-locals-and-params', 'generator': 'rename-cxx-locals', 'params': True,
+          'file': None, 'edits': []})
